@@ -131,11 +131,21 @@ def rule_cipher(ctx):
     def ok(rule, label):
         n_checked[(rule, label)] = n_checked.get((rule, label), 0) + 1
 
+    def has_method(name):
+        """a def of the class (or a base), or a function made in the class body (`encrypt_image = factory(...)`)"""
+        if repo.find_method(cls, name)[1] is not None:
+            return True
+        kc_, ce_ = repo.class_const(cls, name)
+        if ce_ is None:
+            return False
+        v_ = Lab(repo).it.class_const_value(kc_, cls, ce_)
+        return v_[0] in ("closure", "clsmethod")
+
     def run_all(cell, domains):
         out = []
         for kind, info in sorted(KINDS.items()):
             enc_m, dec_m = "encrypt_" + kind, "decrypt_" + kind
-            if enc_m not in cls.methods or dec_m not in cls.methods:
+            if not has_method(enc_m) or not has_method(dec_m):
                 out.append(("missing", kind))
                 continue
             for L in lens:
@@ -188,13 +198,13 @@ def rule_cipher(ctx):
                 r4 = lab.call(lab.cipher(), dec_m, [C, lab.content("K2", 32)])
                 out.append(("tamper", kind, L, "another key", r4[0] == "raise", cipher_before_raise(lab.last_events), ""))
                 for other in sorted(KINDS):
-                    if other != kind and "decrypt_" + other in cls.methods:
+                    if other != kind and has_method("decrypt_" + other):
                         r5 = lab.call(lab.cipher(), "decrypt_" + other, [C, K])
                         out.append(("tamper", kind, L, "decrypted as %s" % other, r5[0] == "raise", cipher_before_raise(lab.last_events), ""))
                 notes.update(a.notes)
             # history on one object: another kind first, with the same key
             for other in sorted(KINDS):
-                if other == kind or "encrypt_" + other not in cls.methods:
+                if other == kind or not has_method("encrypt_" + other):
                     continue
                 lab = Lab(repo, cell, domains)
                 a = lab.alg
